@@ -62,8 +62,9 @@ static jsmntok_t *verif_tok_back(jsmntok_t *stk, int depth) {
 /* ---- what Data::fromJSON may rely on after a successful jsmn_parse: tokens_ok ----
  * (b) extents, (c) order, (d) laminar nesting and (e) the untouched sentinel are postconditions of the jsmn_parse
  * contract PROVED for inputs of any length in layer (a) (engines/jsmn/contracts.h: TOKWF, LAMINAR, TOKEQ_OLD);
- * the remaining clauses (token 0 is the opening container of the text, size > 0 iff the container has children)
- * are only checked against the real jsmn.c in h_jsmn_structure (bounded), which re-checks all clauses as well. */
+ * so is "token 0 of a parse from scratch is the opening container of the text" (FIRST_OK).  Only the clause about
+ * size (> 0 iff the container has children; Data::fromJSON does not read it) rests on the bounded check against the
+ * real jsmn.c in h_jsmn_structure, which re-checks all the other clauses as well. */
 static int tokens_ok(const jsmntok_t *t, int n, size_t budget, size_t len, int starts_with_container) {
   if (n < 0 || (size_t)n > budget) return 0;
   /* the text handed to jsmn_parse begins with '{' or '[' (Data::fromJSON checks that first): token 0 is that container */
